@@ -16,7 +16,7 @@ const char *verif_rule =
     "independently of libcoap): no server request handler and no client response handler ever runs, no DTLS/SESSION_CONNECTED event is raised at the client, and by the time the client "
     "session has been released every Confirmable request has been reported by exactly one NACK, every Non-confirmable by at most one. When they match and no datagram was lost: every "
     "request reaches the server handler exactly once, in submission order, and every request gets exactly one response in the client's handler, no NACK. "
-    "Non-trivial = near-miss credentials (prefix / extension / length / one byte) or a handshake that saw a fault, with at least one queued request; distinct = by scenario";
+    "Non-trivial = near-miss credentials (prefix / extension / length / one byte) or a handshake that saw a fault, with at least one queued request; distinct = by scenario Every second case (last tape byte) the client context is in block mode (COAP_BLOCK_USE_LIBCOAP) and every second queued request is a FETCH with Observe (libcoap then keeps large-receive state for it besides the queued message); NACKs are attributed by token.";
 size_t verif_max_tape = 200;
 
 namespace {
